@@ -23,7 +23,7 @@ from ..world import Violation
 
 ID = "C10"
 LEVEL = "exploration"
-BUDGET = {"quick": 150, "thorough": 1500}
+BUDGET = {"quick": 300, "thorough": 1500}
 JOB_TIMEOUT = 240
 MINIMISE_S = {"quick": 60, "thorough": 240}
 RULE = ("a case = one program chain (1-3 segments) whose operation parameters are expression trees over free parameters, measured "
@@ -54,11 +54,11 @@ def warm(tier):
 def batches(tier):
     if tier == "quick":
         return [
-            {"name": "gaussian", "runs": 1500, "weight": 4},
-            {"name": "bosonic", "runs": 500, "weight": 2, "seed_offset": 100000},
-            {"name": "fock", "runs": 200, "weight": 4, "seed_offset": 200000},
-            {"name": "misuse", "runs": 600, "weight": 1, "seed_offset": 300000},
-            {"name": "foreign", "runs": 600, "weight": 2, "seed_offset": 400000},
+            {"name": "gaussian", "runs": 1950, "weight": 4},
+            {"name": "bosonic", "runs": 650, "weight": 2, "seed_offset": 100000},
+            {"name": "fock", "runs": 260, "weight": 4, "seed_offset": 200000},
+            {"name": "misuse", "runs": 780, "weight": 1, "seed_offset": 300000},
+            {"name": "foreign", "runs": 780, "weight": 2, "seed_offset": 400000},
         ]
     return [
         {"name": "gaussian", "runs": 30000, "weight": 4},
